@@ -615,8 +615,9 @@ int disasm_riscv_comp(
             immediate);
           return 2;
         case OP_COMP_RD_17_1612:
-          immediate = permutate_16(opcode, RiscvPerm::imm17_1612);
-          snprintf(instruction, length, "%s %s, 0x%04x",
+          immediate = permutate_16(opcode, RiscvPerm::imm17_1612) >> 12;
+          if ((immediate & 0x20) != 0) { immediate |= 0xfffc0; }
+          snprintf(instruction, length, "%s %s, 0x%05x",
             instr,
             riscv_reg_names[rs1_32],
             immediate);
